@@ -380,7 +380,7 @@ pub fn run(rep: &mut Report) {
     }
     rep.rule = "per scenario (disable/enable, stop(GET_VRING_BASE)/restart, reset/enable; the same on two rings of one worker; restart with a new kick descriptor; RwLock and Mutex rings; 1-2 kicks): depth-first enumeration of all schedules of {worker thread, daemon thread, frontend script, guest} with at most b preemptions, b = 0,1,2 (thorough: up to 6 for single-ring scenarios, 3-4 otherwise), after a deterministic set-up prefix. Scheduling points: recvmsg, sendmsg, epoll_wait (before / after return), epoll_ctl of the library threads, the worker's acquisitions of the ring state lock (hook) and the entry of the backend's handle_event. Oracle per state: handle_event is not entered after the reply to a disabling/stopping message was written unless a later enabling message was already sent; at the end: the last kick was followed by a dispatch while active, the worker is alive, the frontend's script completed. Non-trivial = schedules with at least one real choice".into();
     rep.assumptions.push("data-race freedom between scheduling points (lock-protected or kernel state); sequentially consistent scheduler".into());
-    rep.assumptions.push("'states' = distinct (per-thread step counters and states, trace length) fingerprints over all executions".into());
+    rep.assumptions.push("'states' = distinct (per-thread step counters, trace length) fingerprints over all executions".into());
 }
 
 pub fn replay(case: &Value, rep: &mut Report) {
